@@ -1,4 +1,4 @@
-CONSTANTS MaxN = 2 MaxDepth = 4 Lat <- MCLat
+CONSTANTS MaxN = 2 MaxDepth = 4 Lat <- MCLat DKs <- MCDKsFull
 INIT Init
 NEXT Next
 VIEW View
